@@ -53,6 +53,12 @@ CHECKS = {
  "C16": dict(cat="model_checking", eng="e2", tech="exhaustive injection of every documented deviation at every applicable place, singly and in pairs, into independently written files; strict/permissive verdicts and views compared",
    text="For each base file (8 contents x canonical / permuted / DIFAT-sector layouts x versions) every documented deviation is injected at every applicable place: zero-padded FAT and DIFAT tails, each FAT/DIFAT sector marker with each wrong value, DIFAT chain ended by FREESECT, every red-red edge, every unterminated name, wrong root names, CLSID / times on every stream, start sector / size on every storage, each header count (+1, -1, 0, large), non-zero V3 directory count, over-long MiniFAT; singly and in all pairs of different kinds. Permissive must accept with the undamaged content, strict must reject; when strict accepts, permissive must accept with the same view (this clause is also checked on every input of the C05 corruption sweep).",
    note="One known finding (KNOWN_FINDINGS.txt): zero-padded DIFAT tail combined with a too-large header FAT-sector count is rejected by permissive open. Triples of deviations are not explored.", ref="4 E2"),
+ "C05": dict(cat="exploration", eng="e5", tech="exhaustive enumeration of single (thorough: pairwise) field corruptions, truncations, extensions and a field-agnostic word sweep over a set of base files, each case run in an isolated worker with panic hook, stall watchdog and allocation accounting",
+   text="For 14-16 base files (library-written and independently synthesised, both versions, including two directory sectors, a DIFAT sector, full mini-stream container, MiniFAT/FAT fill levels) every field-aware corruption (each header field, DIFAT/FAT/MiniFAT cell and directory-entry field x a value alphabet of special markers, neighbours, counts and extremes; 8-bit fields through all 256 values, 16-bit header fields through all 65536 on two bases), every truncation at half-sector steps, extensions, and every aligned 32-bit word x 16 values is opened in both modes and driven through a read-only script (walk, listings, lookups, read and seek in every stream). Thorough adds all pairs of 32-bit field corruptions on three small bases. Verdicts: panic, non-termination (watchdog, confirmed in isolation), abort / allocation failure, peak heap above 4 MiB + 16 x input.",
+   note="The property quantifies over all byte strings; what is decided is every file within one (thorough: two) edits from the value alphabet of the base files, plus truncations/extensions. This is exhaustive enumeration of a finite neighbourhood, not a proof over all inputs - hence level 'exploration'.", ref="4 E5, 9"),
+ "C11": dict(cat="exploration", eng="e5", tech="exhaustive enumeration: every permissively accepted single corruption x every mutation script up to depth 1-2, in isolated workers with panic hook and stall watchdog",
+   text="Every case of the C05 single-corruption enumeration that permissive open accepts is combined with every mutation script of length 1 (thorough: up to 2) over creating small / large streams and storages, rewriting, appending, resizing (0, 100, 5000) and removing each existing stream, removing each storage, remove_storage_all, setters and flush; each script starts from a fresh open of the corrupted bytes. Verdicts: panic (index out of range, overflow, failed assertion - the build has debug assertions and overflow checks on), non-termination, abort.",
+   note="Bases include the fill-level files where the write-path loops are entered (mini stream container exactly full, MiniFAT at 128 entries, FAT at 128 sectors). Two coordinated corruptions plus mutation, and scripts longer than 2, are not covered.", ref="4 E5, 9"),
 }
 
 NOT_YET = {
@@ -87,6 +93,7 @@ def main():
             "add_only": True,
         },
         "engines": [
+            {"name": "e5", "path": "/verif/harness/src/e5.rs", "serves_properties": ["C05", "C11", "C16"], "kind_free_text": "corruption enumeration in isolated worker processes (panic hook, stall watchdog, counting allocator)"},
             {"name": "e2", "path": "/verif/harness/src/e2.rs", "serves_properties": ["C04", "C16"], "kind_free_text": "layout and deviation enumeration over files from the independent writer (synth.rs)"},
             {"name": "e1n", "path": "/verif/harness/src/e1n.rs", "serves_properties": ["C09"], "kind_free_text": "name / path alphabet enumeration on the E1 step executor"},
             {"name": "e1m", "path": "/verif/harness/src/checks.rs", "serves_properties": ["C17"], "kind_free_text": "metadata value alphabet enumeration on the E1 step executor"},
